@@ -9,6 +9,14 @@ Sub-checks
            positions must be identical, labels must follow, and the original-scale summaries must still describe
            the raw values.  Every object an earlier step was applied to, and every matrix handed over as an argument,
            is kept alive and re-verified (labels, unscaled values, NaN positions) after every later step.
+           The operations: select / delete / insert / adjoin / concat (copying), append / remove / incorp / reorder / group
+           (in place).  A quarter of the steps are calls the library is expected to turn down (new taxa without the group
+           labels the receiver carries, one trait too many, a vector or a cube instead of a matrix, a list / None as
+           operand, label arrays of the wrong shape or length, positions and indices out of range / float / string / None,
+           a tuple of indices, mismatched matrices in a concatenation), made on the LIVE object, for in-place and copying
+           operations alike: whenever such a call raises (ValueError / TypeError / IndexError) the object must be exactly
+           what it was before the call -- values, location, scale, all labels; group metadata untouched or dropped -- a
+           matrix operand still describes its own taxa, and the history goes on with the same object under the usual clauses.
   scaled   the generic DenseScaledMatrix: rescale / unscale (in place and not), transform / untransform.
   operands one receiver (any of the five concrete classes of the family) x every kind of operand (a matrix of each of
            the five classes, nested lists / tuples, a list of row arrays, a DataFrame, a generic scaled matrix, ndarrays
@@ -50,6 +58,15 @@ ASSUMPTIONS = [
     "keep its labels and unscaled values whatever is done later to the objects derived from it: 'built from raw values "
     "... unscaling reproduces the raw value of every taxon' has no expiry",
     "targmax/targmin may return any index whose raw value ties with the extremum after rounding",
+    "refused calls: which wrong inputs an operation turns down, and with which of ValueError / TypeError / IndexError, is not "
+    "part of the property; what is asserted is that a call that raises has had no effect on the live object (a caller who "
+    "catches the error keeps a matrix 'built from raw values'), so the rest of the history applies to it unchanged.  A wrong "
+    "input that a copying operation accepts only yields a result that is thrown away (the receiver must be unchanged); one "
+    "that an in-place operation accepts ends the history (what the object should hold is undefined).  A tuple of indices is a "
+    "documented Sequence: it may be turned down or carried out with the meaning of the same indices in a list.  Group metadata "
+    "(names / start / stop / length) may be dropped by a refused call but not altered",
+    "group_taxa: the order inside and between groups is read back from the labels (names are unique up to copies of one taxon "
+    "made by select); asserted are: same taxa, groups contiguous and ascending, every taxon still carries its raw values",
     "operands: which operand types an operation accepts is not part of the property; a ValueError / TypeError is a clean "
     "refusal for every combination.  What a matrix of the family holds is unambiguous (its taxa's raw values), so if it is "
     "accepted its taxa must arrive with those values; a nested list / tuple / DataFrame / ndarray is read as raw values by "
@@ -386,7 +403,12 @@ def check_values(case, ctx):
 # sub-check 2: histories
 # ----------------------------------------------------------------------------------------------------------------
 OPS = ["select", "delete", "insert", "adjoin", "concat", "append", "remove", "incorp"]
-INPLACE = ("append", "remove", "incorp")
+# in-place reorderings of the taxa axis: twice the eight above to one of these
+OPS_DRAW = OPS * 2 + ["reorder", "reorder", "group"]
+INPLACE = ("append", "remove", "incorp", "reorder", "group")
+REFUSABLE = OPS + ["reorder"]
+# what a call that the library turns down may raise (numpy's own index errors included)
+REFUSALS = (ValueError, TypeError, IndexError)
 
 
 @st.composite
@@ -402,8 +424,20 @@ def history_case(draw):
     ops = []
     rawi = st.integers(0, 10 ** 6)
     for _ in range(nops):
-        name = draw(st.sampled_from(OPS))
-        if name == "select":
+        name = draw(st.sampled_from(OPS_DRAW))
+        if name in REFUSABLE and draw(st.integers(0, 3)) == 0:
+            # a quarter of the steps: a call the library is expected to turn down (the kind of mistake is picked inside
+            # `fn` among those that apply to the operation and the current state), made on the live object, which the
+            # following steps keep using
+            k = draw(st.integers(1, 2))
+            ops.append(["refuse", name, draw(rawi), draw(st.lists(rawi, min_size=1, max_size=4)), draw(rawi),
+                        draw(rows_strategy(k, profiles, keep_one=False, nan_odds=5)),
+                        [draw(st.integers(0, 3)) for _ in range(k)], draw(st.booleans())])
+        elif name == "reorder":
+            ops.append([name, draw(rawi)])
+        elif name == "group":
+            ops.append([name])
+        elif name == "select":
             ops.append([name, draw(st.lists(rawi, min_size=1, max_size=6))])
         elif name in ("delete", "remove"):
             ops.append([name, draw(st.one_of(rawi, st.lists(rawi, min_size=1, max_size=4)))])
@@ -421,6 +455,61 @@ def history_case(draw):
             else:
                 ops.append([name, new, g, draw(st.booleans())])
     return {"cls": cls, "rows": rows, "grp": grp, "kinds": [p["kind"] for p in profiles], "ops": ops}
+
+
+class _Refused(Exception):
+    """a deliberately dubious call was turned down by the library (carries the library's exception)"""
+
+    def __init__(self, exc):
+        Exception.__init__(self, "%s: %s" % (type(exc).__name__, exc))
+        self.exc = exc
+
+
+def _guarded(f, dubious):
+    if not dubious:
+        return f()
+    try:
+        return f()
+    except REFUSALS as e:
+        raise _Refused(e)
+
+
+GROUP_META = ("taxa_grp_name", "taxa_grp_stix", "taxa_grp_spix", "taxa_grp_len")
+
+
+def full_state(o):
+    """Everything a caller can observe of a matrix object, in a form that compares bit for bit (NaN included)."""
+    def num(a):
+        a = numpy.asarray(a)
+        return (a.dtype.str, a.shape, numpy.ascontiguousarray(a).tobytes())
+
+    def lab(a):
+        if a is None:
+            return None
+        a = numpy.asarray(a)
+        return (a.shape, a.ravel().tolist())
+    s = {"mat": num(o.mat), "location": num(o.location), "scale": num(o.scale),
+         "taxa": lab(o.taxa), "taxa_grp": lab(o.taxa_grp), "trait": lab(o.trait)}
+    for m in GROUP_META:
+        s[m] = lab(getattr(o, m))
+    return s
+
+
+def state_diff(a, b, keys=None):
+    return [k for k in (keys or a) if a[k] != b[k]]
+
+
+def _selftest_state():
+    x = numpy.array([[1.0, numpy.nan], [2.0, 3.0]])
+    o = DenseBreedingValueMatrix.from_numpy(x, taxa=numpy.array(["a", "b"], dtype=object), taxa_grp=numpy.array([1, 0]))
+    s = full_state(o)
+    assert state_diff(s, full_state(o)) == []
+    o.group_taxa()
+    d = state_diff(s, full_state(o))
+    assert "taxa" in d and "mat" in d and "taxa_grp_name" in d and "location" not in d, d
+
+
+_selftest_state()
 
 
 def check_history(case, ctx):
@@ -465,7 +554,7 @@ def check_history(case, ctx):
 
     def retire(obj, rs, k, what):
         alive.append({"obj": obj, "rows": [list(r["vals"]) for r in rs], "names": [r["name"] for r in rs],
-                      "grp": [r["grp"] for r in rs], "k": k, "what": what})
+                      "grp": [r["grp"] for r in rs] if has_grp else None, "k": k, "what": what})
 
     def recheck_alive(after):
         pre = "history.earlier_object."
@@ -474,7 +563,7 @@ def check_history(case, ctx):
             ctx.check(o.taxa is not None and list(o.taxa) == e["names"], pre + "taxa",
                       lambda: "%s: taxa %s, but it was built with / left holding %s (after a later %s on another object)"
                       % (e["what"], None if o.taxa is None else list(o.taxa), e["names"], after))
-            if has_grp:
+            if e["grp"] is not None:
                 ctx.check(o.taxa_grp is not None and [int(g) for g in o.taxa_grp] == e["grp"], pre + "taxa_grp",
                           lambda: "%s: taxa_grp %s, expected %s (after a later %s on another object)"
                           % (e["what"], None if o.taxa_grp is None else list(o.taxa_grp), e["grp"], after))
@@ -500,97 +589,343 @@ def check_history(case, ctx):
                 model[i]["vals"] = [None if math.isnan(float(x)) else float(x) for x in u[i]]
         see(model)
 
-    for step, op in enumerate(case["ops"]):
-        name = op[0]
+    def verify_current(pre, after):
+        """The usual clauses on the live object against the model: labels follow the rows, every taxon unscales to its raw
+        values, earlier objects are intact, the original-scale summaries describe the raw values."""
+        rows = [r["vals"] for r in model]
+        ctx.check(cur.taxa is not None and list(cur.taxa) == [r["name"] for r in model], pre + "taxa",
+                  lambda: "taxa %s, model %s" % (None if cur.taxa is None else list(cur.taxa), [r["name"] for r in model]))
+        if has_grp:
+            ctx.check(cur.taxa_grp is not None and [int(g) for g in cur.taxa_grp] == [r["grp"] for r in model], pre + "taxa_grp",
+                      lambda: "taxa_grp %s, model %s" % (None if cur.taxa_grp is None else list(cur.taxa_grp), [r["grp"] for r in model]))
+        else:
+            ctx.check(cur.taxa_grp is None, pre + "taxa_grp", "groups appeared")
+        bad = check_unscaled(ctx, cur, rows, pre, 2 * trips, M)
+        if bad:
+            resync(bad)
+        recheck_alive(after)
+        if cur.mat.shape[0] != len(model):
+            return False
+        check_summaries(ctx, cur, [r["vals"] for r in model], "history.summary.", 2 * trips, stale=stale, M=M, unstd=unstd,
+                        opname=" after %s" % after)
+        return True
+
+    # ---- calls that the library is expected to turn down ------------------------------------------------------------
+    def after_refusal(name, kind, what, exc, before, operands):
+        """The call `what` raised `exc` (or, for a copying operation, returned a result that is thrown away): the live
+        object must be exactly what it was before the call, and the history goes on with it.  -> False: history ends."""
+        inplace = name in INPLACE
+        ctx.label("refused_" + kind if exc is not None else "dubious_call_accepted_by_copying_operation")
+        if exc is None:
+            ctx.note("accepted", "%s/%s: %s" % (name, kind, what))
+        ctx.label("refused_inplace_operation" if inplace else "refused_copying_operation", exc is not None)
+        outcome = ("raised %s(%s)" % (type(exc).__name__, str(exc)[:80])) if exc is not None else "returned a new object"
+        now = full_state(cur)
+        # F-C15-f: append_taxa / incorp_taxa (like reorder_taxa, see there) assign the extended value matrix before they
+        # touch the label arrays; when numpy then refuses the labels (a label array that is not 1-d) the exception leaves
+        # values and labels of the live object out of step
+        sig = name in ("append", "incorp") and kind == "labels_2d"
+        if exc is not None and ctx.known("F-C15-f", sig):
+            ctx.label("known_half_update_ends_history")
+            return False
+        core = [k for k in now if k not in GROUP_META]
+        diff = state_diff(before, now, core)
+        if not ctx.check(not diff, "history.refused.receiver_changed" if exc is not None else "history.%s.source_mutated" % name,
+                         lambda: "%s %s and left the live object changed in %s: %d rows stored, taxa %s, taxa_grp %s; it held %d taxa before the call"
+                         % (what, outcome, diff, cur.mat.shape[0], None if cur.taxa is None else numpy.asarray(cur.taxa).tolist(),
+                            None if cur.taxa_grp is None else numpy.asarray(cur.taxa_grp).tolist(), len(model))):
+            return False
+        # group metadata: either untouched or dropped altogether (never describing another arrangement of the rows)
+        md = state_diff(before, now, GROUP_META)
+        ctx.check(not md or all(now[m] is None for m in GROUP_META), "history.refused.group_metadata_stale",
+                  lambda: "%s %s and left group metadata %s altered" % (what, outcome, md))
+        for o_, vals_, names_, grp_ in operands:
+            Mo = [max([abs(v) for v in nonnan(column(vals_, j))] + [0.0]) for j in range(len(vals_[0]))]
+            ctx.check(o_.taxa is not None and list(o_.taxa) == names_
+                      and ((o_.taxa_grp is None) if grp_ is None else (o_.taxa_grp is not None and [int(g) for g in o_.taxa_grp] == grp_)),
+                      "history.refused_operand.labels", lambda: "operand of %s: taxa %s" % (what, o_.taxa))
+            check_unscaled(ctx, o_, vals_, "history.refused_operand.", 2, Mo)
+        return verify_current("history.refused.", "the refused %s" % name if exc is not None else "the discarded %s" % name)
+
+    def refused_call(op):
+        """-> (name, kind, callable, description, matrix operands) for one deliberately wrong call on the live object."""
+        _, name, kraw, idxraw, posraw, newvals, newgrp, flag = op
         n = len(model)
+        sub = kraw // 16
+        k = len(newvals)
+        if name in ("insert", "adjoin", "append", "incorp"):
+            # (the draw favours small numbers: the kinds that need a particular state come first)
+            kinds = (["missing_grp"] * 3 if has_grp else []) + ["wrong_ntrait", "wrong_ndim"]
+            if name in ("insert", "incorp"):
+                kinds.append("bad_pos")
+            kinds += ["wrong_type", "labels_2d"]
+            if name in ("insert", "adjoin"):
+                kinds.append("labels_len")
+        elif name == "concat":
+            kinds = ["wrong_ntrait", "mixed_grp", "ndarray_element"]
+        else:
+            kinds = ["out_of_range", "out_of_range", "float_index", "string_index", "tuple_indices", "tuple_indices"]
+            if name != "reorder":
+                kinds.append("not_a_sequence")      # (reorder_taxa(None) is numpy's newaxis: accepted, not a refusal)
+        kind = kinds[kraw % len(kinds)]
+        if kind == "tuple_indices":
+            return name, kind, None, None, []
+        names = ["y%03d" % (counter[0] + i) for i in range(k)]
+        counter[0] += k
+        grp = [int(g) for g in newgrp] if has_grp else None
+        wide = [list(r) + [float(i)] for i, r in enumerate(newvals)]           # one trait too many
+        operands = []
+
+        def mat(vals, g):
+            o = build(cname, vals, names, g)
+            operands.append((o, [list(r) for r in vals], names, g))
+            return o
+        full = {"taxa": numpy.array(names, dtype=object)}
+        if has_grp:
+            full["taxa_grp"] = numpy.array(grp, dtype=int)
+
+        if name in ("insert", "adjoin", "append", "incorp"):
+            pos = posraw % (n + 1)
+            val, kw = to_array(newvals).reshape(k, t), dict(full)
+            if kind == "missing_grp":           # the receiver carries group labels, the new taxa come without any
+                if flag:
+                    val, kw = mat(newvals, None), {}
+                else:
+                    kw = {"taxa": full["taxa"]}
+            elif kind == "wrong_ntrait":
+                if flag:
+                    val, kw = mat(wide, grp), {}
+                else:
+                    val = to_array(wide)
+            elif kind == "wrong_ndim":
+                if flag:                          # one taxon handed over as a vector
+                    val, kw = val[0], {a: b[:1] for a, b in full.items()}
+                else:
+                    val = val[None]
+            elif kind == "wrong_type":
+                val = [[float("nan") if v is None else v for v in r] for r in newvals] if flag else None
+            elif kind == "labels_2d":            # a column of labels, as DataFrame[[...]].values gives it
+                which = "taxa_grp" if (has_grp and not flag) else "taxa"
+                kw[which] = kw[which].reshape(k, 1)
+            elif kind == "labels_len":
+                kw["taxa"] = numpy.array(names + ["y%03d" % counter[0]], dtype=object)
+                if has_grp:
+                    kw["taxa_grp"] = numpy.array(grp + [0], dtype=int)
+            elif kind == "bad_pos":
+                pos = [n + 1 + sub % 3, -(n + 2) - sub % 3, pos + 0.5, None][(sub // 4) % 4]
+            if name == "insert":
+                f = lambda: cur.insert_taxa(pos, val, **kw)     # noqa: E731
+            elif name == "adjoin":
+                f = lambda: cur.adjoin_taxa(val, **kw)           # noqa: E731
+            elif name == "append":
+                f = lambda: cur.append_taxa(val, **kw)           # noqa: E731
+            else:
+                f = lambda: cur.incorp_taxa(pos, val, **kw)     # noqa: E731
+            what = "%s_taxa(%s%s%s)" % (name, "%r, " % (pos,) if name in ("insert", "incorp") else "",
+                                        type(val).__name__ + (str(getattr(val, "shape", "")) if isinstance(val, numpy.ndarray) else ""),
+                                        "".join(", %s=%s" % (a, "array%s" % (b.shape,)) for a, b in kw.items()))
+        elif name == "concat":
+            if kind == "wrong_ntrait":
+                other = mat(wide, grp)
+            elif kind == "mixed_grp":
+                other = build(cname, newvals, names, None if has_grp else [int(g) for g in newgrp])
+                operands.append((other, [list(r) for r in newvals], names, None if has_grp else [int(g) for g in newgrp]))
+            else:
+                other = to_array(newvals).reshape(k, t)
+            # (a bare array is only ever offered after the live object: in front the inherited method reads `.trait`
+            #  off it -- AttributeError, garbage in rather than a refusal)
+            mats = [cur, other] if (flag or kind == "ndarray_element") else [other, cur]
+            f = lambda: cls.concat_taxa(mats)                    # noqa: E731
+            what = "concat_taxa([%s])" % ", ".join("self" if m is cur else type(m).__name__ for m in mats)
+        else:
+            if name == "reorder":
+                base = [int(i) for i in numpy.random.default_rng(posraw).permutation(n)]
+            else:
+                base = [r % n for r in idxraw]
+            if kind == "out_of_range":
+                bad = (n + sub % 3) if (sub // 4) % 2 == 0 else (-(n + 1) - sub % 3)
+                j = (sub // 8) % len(base) if name == "reorder" else (sub // 8) % (len(base) + 1)
+                arg = (base[:j] + [bad] + base[j + 1:]) if name == "reorder" else (base[:j] + [bad] + base[j:])
+                if name in ("delete", "remove") and (sub // 64) % 3 == 0:
+                    arg = bad                                     # a single index
+                elif flag:
+                    arg = numpy.array(arg, dtype="int64")
+            elif kind == "float_index":
+                arg = numpy.array(base, dtype=float)
+            elif kind == "string_index":
+                arg = [model[i]["name"] for i in base]
+            else:
+                arg = None
+            f = {"select": lambda: cur.select_taxa(arg), "delete": lambda: cur.delete_taxa(arg),
+                 "remove": lambda: cur.remove_taxa(arg), "reorder": lambda: cur.reorder_taxa(arg)}[name]
+            what = "%s_taxa(%r)" % (name, arg)
+        return name, kind, f, what, operands
+
+    executed_after_refusal = False
+    pending_refusal = False
+    for step, op in enumerate(case["ops"]):
+        n = len(model)
+        before = full_state(cur)
+        dubious = None                    # set: the call may legitimately be turned down (or be accepted with its plain meaning)
+        if op[0] == "refuse":
+            rname, kind, f, what, r_operands = refused_call(op)
+            if kind == "tuple_indices":
+                # a tuple where a list is usual: a documented Sequence.  Either outcome is fine: turned down (object
+                # untouched) or carried out with the meaning of the same indices in a list
+                dubious = kind
+                op = ["reorder", op[4]] if rname == "reorder" else [rname, op[3]]
+            else:
+                try:
+                    f()
+                except REFUSALS as e:
+                    exc = e
+                else:
+                    exc = None
+                    if rname in INPLACE:
+                        # an in-place operation took the wrong input: what the object should now hold is anybody's guess
+                        ctx.label("dubious_call_accepted_by_inplace_operation_ends_history")
+                        ctx.note("accepted", "%s/%s: %s" % (rname, kind, what))
+                        return
+                if not after_refusal(rname, kind, what, exc, before, r_operands):
+                    return
+                pending_refusal = pending_refusal or exc is not None
+                for o_, vals_, names_, grp_ in r_operands:
+                    if len(vals_[0]) == t:
+                        alive.append({"obj": o_, "rows": vals_, "names": names_, "grp": grp_, "k": 2,
+                                      "what": "a matrix argument of the refused step %d (%s)" % (step, rname)})
+                continue
+        name = op[0]
         pre = "history.%s." % name
         snap = (cur.mat.copy(), cur.location.copy(), cur.scale.copy())
         skip_values_rows = set()          # rows whose value clause is excluded by a known finding
         prev, prev_model, prev_k = cur, model, 2 * trips
         operands = []                     # matrix objects handed to this operation: (object, their rows)
-        if name == "select":
-            idx = [r % n for r in op[1]]
-            # the same entities addressed through negative indices in a third of the positions (a tail selection)
-            arg = [(i - n) if (r // 11) % 3 == 0 else i for i, r in zip(idx, op[1])]
-            ctx.label("select_with_negative_index", any(a < 0 for a in arg))
-            new = cur.select_taxa(arg if (op[1][0] // 5) % 2 == 0 else numpy.array(arg, dtype="int64"))
-            model2 = [dict(model[i]) for i in idx]
-        elif name in ("delete", "remove"):
-            arg = op[1]
-            if isinstance(arg, list):
-                idx = sorted(set(r % n for r in arg))[: n - 1]      # keep at least one taxon
-                if not idx:
-                    continue
-                obj = idx
-            else:
-                if n == 1:
-                    continue
-                idx = [arg % n]
-                obj = idx[0] - n if (arg // 11) % 3 == 0 else idx[0]
-            model2 = [r for i, r in enumerate(model) if i not in idx]
-            if name == "delete":
-                new = cur.delete_taxa(obj)
-            else:
-                cur.remove_taxa(obj)
+        try:
+            if name == "select":
+                idx = [r % n for r in op[1]]
+                # the same entities addressed through negative indices in a third of the positions (a tail selection)
+                arg = [(i - n) if (r // 11) % 3 == 0 else i for i, r in zip(idx, op[1])]
+                ctx.label("select_with_negative_index", any(a < 0 for a in arg))
+                arg = tuple(arg) if dubious else arg if (op[1][0] // 5) % 2 == 0 else numpy.array(arg, dtype="int64")
+                new = _guarded(lambda: cur.select_taxa(arg), dubious)
+                model2 = [dict(model[i]) for i in idx]
+            elif name in ("delete", "remove"):
+                arg = op[1]
+                if isinstance(arg, list):
+                    idx = sorted(set(r % n for r in arg))[: n - 1]      # keep at least one taxon
+                    if not idx:
+                        continue
+                    obj = tuple(idx) if dubious else idx
+                else:
+                    if n == 1:
+                        continue
+                    idx = [arg % n]
+                    obj = idx[0] - n if (arg // 11) % 3 == 0 else idx[0]
+                model2 = [r for i, r in enumerate(model) if i not in idx]
+                if name == "delete":
+                    new = _guarded(lambda: cur.delete_taxa(obj), dubious)
+                else:
+                    _guarded(lambda: cur.remove_taxa(obj), dubious)
+                    new = cur
+            elif name == "reorder":
+                perm = [int(i) for i in numpy.random.default_rng(op[1]).permutation(n)]
+                arg = tuple(perm) if dubious else perm if (op[1] // 5) % 2 == 0 else numpy.array(perm, dtype="int64")
+                # F-C15-f: reorder_taxa re-indexes the value matrix, then uses the tuple as a multi-dimensional index of
+                # the 1-d label arrays: IndexError with values and labels left out of step (one taxon: no error, the label
+                # array collapses to a scalar).  Either way the object is unusable afterwards: the history ends here
+                if dubious and ctx.known("F-C15-f", True):
+                    ctx.label("known_half_update_ends_history")
+                    try:
+                        cur.reorder_taxa(arg)
+                    except REFUSALS:
+                        pass
+                    return
+                _guarded(lambda: cur.reorder_taxa(arg), dubious)
                 new = cur
-        elif name in ("insert", "incorp"):
-            pos = op[1] % (n + 1)
-            add = mkrows(op[2], op[3])
-            see(add)
-            val, kw = block(add, op[4] or name == "incorp")
-            if not kw:
-                operands.append((val, add))
-            ctx.label("zero_row_operand", not add)
-            model2 = model[:pos] + add + model[pos:]
-            if name == "insert":
-                new = cur.insert_taxa(pos, val, **kw)
-            else:
-                cur.incorp_taxa(pos, val, **kw)
+                model2 = [model[i] for i in perm]
+            elif name == "group":
+                cur.group_taxa()
                 new = cur
-                # F-C15-c: the argument's *scaled* values are spliced under self's location/scale
-                if add and ctx.known("F-C15-c", True):
-                    skip_values_rows = set(range(pos, pos + len(add)))
-            ctx.label("inserted_all_nan_trait", any(all(r["vals"][j] is None for r in add) for j in range(t)))
-        elif name in ("adjoin", "append"):
-            add = mkrows(op[1], op[2])
-            see(add)
-            val, kw = block(add, op[3] or name == "append")
-            if not kw:
-                operands.append((val, add))
-            ctx.label("zero_row_operand", not add)
-            model2 = model + add
-            if name == "adjoin":
-                new = cur.adjoin_taxa(val, **kw)
+                got = None if cur.taxa is None else list(cur.taxa)
+                names = [r["name"] for r in model]
+                if not ctx.check(got is not None and sorted(got) == sorted(names), pre + "taxa",
+                                 lambda: "group_taxa: taxa %s are no rearrangement of %s" % (got, names)):
+                    return
+                left, model2 = list(range(n)), []                       # the order the labels are in now
+                for x in got:
+                    i = next(i for i in left if names[i] == x)
+                    left.remove(i)
+                    model2.append(model[i])
+                if has_grp:
+                    gs = [r["grp"] for r in model2]
+                    ctx.check(all(a <= b for a, b in zip(gs, gs[1:])), pre + "groups_not_contiguous", lambda: "groups %s" % gs)
+                    ctx.label("grouped_with_metadata", cur.taxa_grp_name is not None)
+            elif name in ("insert", "incorp"):
+                pos = op[1] % (n + 1)
+                add = mkrows(op[2], op[3])
+                see(add)
+                val, kw = block(add, op[4] or name == "incorp")
+                if not kw:
+                    operands.append((val, add))
+                ctx.label("zero_row_operand", not add)
+                model2 = model[:pos] + add + model[pos:]
+                if name == "insert":
+                    new = cur.insert_taxa(pos, val, **kw)
+                else:
+                    cur.incorp_taxa(pos, val, **kw)
+                    new = cur
+                    # F-C15-c: the argument's *scaled* values are spliced under self's location/scale
+                    if add and ctx.known("F-C15-c", True):
+                        skip_values_rows = set(range(pos, pos + len(add)))
+                ctx.label("inserted_all_nan_trait", any(all(r["vals"][j] is None for r in add) for j in range(t)))
+            elif name in ("adjoin", "append"):
+                add = mkrows(op[1], op[2])
+                see(add)
+                val, kw = block(add, op[3] or name == "append")
+                if not kw:
+                    operands.append((val, add))
+                ctx.label("zero_row_operand", not add)
+                model2 = model + add
+                if name == "adjoin":
+                    new = cur.adjoin_taxa(val, **kw)
+                else:
+                    cur.append_taxa(val, **kw)
+                    new = cur
+                    if add and ctx.known("F-C15-c", True):
+                        skip_values_rows = set(range(n, n + len(add)))
+            elif name == "concat":
+                a = mkrows(op[1], op[2])
+                b = mkrows(op[3], op[4])
+                see(a + b)
+                first = op[5]
+                parts = [bv(x) for x in (a, b) if x]           # possibly none: the one-element list [cur]
+                operands.extend((p, x) for p, x in zip(parts, [x for x in (a, b) if x]))
+                ctx.label("concat_of_one_matrix", not parts)
+                mats = ([cur] + parts) if first else (parts + [cur])
+                model2 = (model + a + b) if first else (a + b + model)
+                # F-C15-b: concat_taxa is inherited: it joins the *scaled* matrices and calls cls(mat=...) without
+                # location/scale (defaults 0/1 on the base class, TypeError on the E/GE subclasses)
+                known_b = ctx.known("F-C15-b", True)
+                try:
+                    new = cls.concat_taxa(mats)
+                except TypeError as e:
+                    ctx.label("concat_raises_TypeError_on_subclass")
+                    if not known_b:
+                        ctx.fail(pre + "raises", "%s.concat_taxa raised TypeError: %s" % (cls.__name__, e))
+                    continue            # state unchanged
+                if known_b:
+                    skip_values_rows = set(range(len(model2)))
             else:
-                cur.append_taxa(val, **kw)
-                new = cur
-                if add and ctx.known("F-C15-c", True):
-                    skip_values_rows = set(range(n, n + len(add)))
-        elif name == "concat":
-            a = mkrows(op[1], op[2])
-            b = mkrows(op[3], op[4])
-            see(a + b)
-            first = op[5]
-            parts = [bv(x) for x in (a, b) if x]           # possibly none: the one-element list [cur]
-            operands.extend((p, x) for p, x in zip(parts, [x for x in (a, b) if x]))
-            ctx.label("concat_of_one_matrix", not parts)
-            mats = ([cur] + parts) if first else (parts + [cur])
-            model2 = (model + a + b) if first else (a + b + model)
-            # F-C15-b: concat_taxa is inherited: it joins the *scaled* matrices and calls cls(mat=...) without
-            # location/scale (defaults 0/1 on the base class, TypeError on the E/GE subclasses)
-            known_b = ctx.known("F-C15-b", True)
-            try:
-                new = cls.concat_taxa(mats)
-            except TypeError as e:
-                ctx.label("concat_raises_TypeError_on_subclass")
-                if not known_b:
-                    ctx.fail(pre + "raises", "%s.concat_taxa raised TypeError: %s" % (cls.__name__, e))
-                continue            # state unchanged
-            if known_b:
-                skip_values_rows = set(range(len(model2)))
-        else:
-            raise AssertionError(name)
+                raise AssertionError(name)
+        except _Refused as r:
+            if not after_refusal(name, dubious, "%s_taxa(%r)" % (name, arg if name in ("select", "reorder") else obj), r.exc, before, []):
+                return
+            pending_refusal = True
+            continue
+        if dubious:
+            ctx.label("tuple_indices_accepted")
         seen_ops.add(name)
+        executed_after_refusal = executed_after_refusal or pending_refusal
 
         # ---- the operation's own contract -------------------------------------------------------------------
         if name not in INPLACE:
@@ -641,6 +976,7 @@ def check_history(case, ctx):
                         opname=" after in-place %s" % name if stale else "")
 
     ctx.label("ops_%d+" % min(len(case["ops"]), 4))
+    ctx.label("object_used_again_after_a_refused_call", executed_after_refusal)
     for nm in seen_ops:
         ctx.label("op_" + nm)
     ctx.nontrivial(len(model) >= 3 and len(seen_ops) >= 2
@@ -962,11 +1298,18 @@ SUBCHECKS = [
              required_labels=("constant_trait", "has_nan", "large_offset", "class_E", "class_G", "spread_below_1e-9",
                               "spread_above_1e6")),
     SubCheck("history", check_history, history_case(), quick=1500, thorough=3000, shards_quick=4,
-             rule="start matrix + 1-7 taxa-axis operations (select/delete/insert/adjoin/concat/append/remove/incorp, indices "
+             rule="start matrix + 1-7 taxa-axis operations (select/delete/insert/adjoin/concat/append/remove/incorp, in-place "
+                  "reorder/group; indices "
                   "relative to the current shape, new rows as raw ndarray or as a matrix object, blocks of 0-3 taxa); every earlier "
-                  "receiver / matrix argument is kept and re-verified after every later step; non-trivial = >= 3 taxa at "
+                  "receiver / matrix argument is kept and re-verified after every later step; a quarter of the steps are calls "
+                  "expected to be refused (14 kinds of wrong input, in-place and copying operations), after which the same object "
+                  "must be bit-identical and the history continues on it; non-trivial = >= 3 taxa at "
                   "the end, >= 2 distinct operation kinds, >= 1 non-constant trait",
-             required_labels=tuple("op_" + o for o in OPS) + ("zero_row_operand", "inplace_step_with_earlier_objects_alive")),
+             required_labels=tuple("op_" + o for o in OPS) + ("op_reorder", "op_group", "zero_row_operand",
+                                                              "inplace_step_with_earlier_objects_alive",
+                                                              "refused_missing_grp", "refused_wrong_ntrait", "refused_out_of_range",
+                                                              "refused_inplace_operation", "refused_copying_operation",
+                                                              "object_used_again_after_a_refused_call", "grouped_with_metadata")),
     SubCheck("scaled", check_scaled, scaled_case(), quick=800, thorough=2500, shards_quick=2,
              rule="DenseScaledMatrix (matrix or cube) with explicit location/scale + 1-5 of rescale/unscale (in place or copy) / "
                   "transform+untransform; non-trivial = >= 3 rows and >= 2 distinct operations"),
